@@ -41,7 +41,7 @@ ASSUMPTIONS = [
 
 def floors(tier):
     return {"codec-exhaustive": 190000, "codec": 3000, "refuse": 1500, "nomval": 40,
-            "checksum": 60000, "isvalid": 500, "itow": 20000, "get_bits": 1000, "val2sphp": 1000,
+            "checksum": 60000, "checksum-saturated": 4000, "isvalid": 500, "itow": 20000, "get_bits": 1000, "val2sphp": 1000,
             "protocol": 65536, "att": 500}
 
 
@@ -389,6 +389,19 @@ def run_shard(spec, ctx, acc):
                 case = {"kind": "checksum", "x": v.to_bytes(ln, "big")}
                 out = check(case)
                 out.dig = None
+                if core.handle(acc, out, case, known):
+                    return
+        # every length up to 600 (thorough: 4200) with saturated and structured
+        # contents: all ff / fe / 80 / 00 / 01, ff with one 00, an ascending ramp
+        top = 601 if tier == "quick" else 4201
+        for ln in range(3, top):
+            conts = [b"\xff" * ln, b"\xfe" * ln, b"\x80" * ln, bytes(ln), b"\x01" * ln,
+                     b"\xff" * (ln // 2) + b"\x00" + b"\xff" * (ln - ln // 2 - 1),
+                     bytes((i * 7 + ln) & 0xFF for i in range(ln))]
+            for x in conts:
+                case = {"kind": "checksum", "x": x}
+                out = check(case)
+                out.classes = list(out.classes) + ["checksum-saturated"]
                 if core.handle(acc, out, case, known):
                     return
         return
